@@ -84,7 +84,7 @@ CHECKS = {
    design="6/C15"),
  "C16": dict(
    technique="exhaustive enumeration over a delimiter alphabet + mutation-based property testing, differential against an independent recursive-descent recogniser; libFuzzer target fz_bdecode with the same oracle (thorough)",
-   text="Complete enumeration of all strings over {0,1,2,:,i,l,d,e,-,a} up to length 8 (quick, 111M strings) / 10 (thorough) plus mutated valid documents; rdest must accept exactly the recogniser's language with matching values and never panic. One known finding (unterminated container at EOF, pinned by a baseline test) is recognised by signature and reported as KNOWN-FINDING; everything else is a violation.",
+   text="Complete enumeration of all strings over {0,1,2,:,i,l,d,e,-,a} up to length 8 (quick, 111M strings) / 10 (thorough) plus mutated valid documents; rdest must accept exactly the recogniser's language with matching values and never panic. Deep nestings (100 to 1,000,000 levels) are decoded in a child process. Two known findings (unterminated container at EOF, pinned by a baseline test; stack overflow on nesting deeper than 5000 levels) are recognised by signature and reported as KNOWN-FINDING; everything else is a violation.",
    note="Trusted: the reference recogniser. Numbers outside i64/usize are out of the stated domain (skipped, counted).",
    design="6/C16"),
  "C17": dict(
